@@ -684,6 +684,7 @@ package query
 // membership of a value among the first n elements of an int slice (unfolding stated as axioms)
 //@ spec func inPrefix(s []int, n int, v int) bool reads elems(s)
 //@ axiom inprefix_zero: forallv(s, []int, forallv(v, int, !inPrefix(s, 0, v)))
+//@ axiom inprefix_unfold: forallv(s, []int, forallv(v, int, forall(m, 1, MaxInt64, inPrefix(s, m, v) == (inPrefix(s, m - 1, v) || s[m - 1] == v))))
 //@ axiom inprefix_step: forallv(s, []int, forallv(v, int, forall(n, 0, MaxInt64, inPrefix(s, n + 1, v) == (inPrefix(s, n, v) || s[n] == v))))
 
 // REPLACE: which columns are rewritten on a key match (all given columns that are not key columns), the order in
@@ -692,9 +693,10 @@ package query
 //@   property C05 C12
 //@   requires view != nil && flags != nil && forall(r, 0, len(recordValues), len(recordValues[r]) >= len(fields))
 //@   assert after call (*query.View).convertRecordValuesToRecordSet#1: [update-columns-are-the-given-non-key-columns] forall(q, 0, len(updateIndices),
-//@       inPrefix(fieldIndices, len(fieldIndices), updateIndices[q]) && !has(keyIndicesMap, uint(updateIndices[q])))
+//@       exists(j, 0, len(fieldIndices), fieldIndices[j] == updateIndices[q]) && !has(keyIndicesMap, uint(updateIndices[q])))
 //@   loop 4 invariant 0 <= $i && $i <= len(fieldIndices) && keyIndicesMap != nil && base(updateIndices) != base(fieldIndices)
-//@   loop 4 invariant forall(q, 0, len(updateIndices), inPrefix(fieldIndices, $i, updateIndices[q]) && !has(keyIndicesMap, uint(updateIndices[q])))
+//@   loop 4 invariant forall(q, 0, len(updateIndices), exists(j, 0, $i, fieldIndices[j] == updateIndices[q]))
+//@   loop 4 invariant forall(q, 0, len(updateIndices), !has(keyIndicesMap, uint(updateIndices[q])))
 //@   modifies *
 
 // ---------------------------------------------------------------------------------------------
@@ -1253,3 +1255,15 @@ package query
 //@   loop 3 invariant forall(q, 0, len(appendIndices), unmatchedByAll(joinViewMatchesList, appendIndices[q]))
 //@   loop 3 modifies nothing
 //@   modifies *
+
+// C05: the number of deleted records DELETE reports is the size of the set of row numbers it collected; only row numbers
+// (never the -1 that InternalRecordId returns with an error) may enter that set.
+//@ func (*View).InternalRecordId
+//@   trusted assumed: on success the internal id cell of a joined row holds the row number GetWithInternalId stored there (>= 0); the error case is proved (variant below)
+//@   ensures result1 != nil ==> result0 == -1
+//@   ensures result1 == nil ==> result0 >= 0
+//@   modifies fresh
+//@ func (*View).InternalRecordId!errorcase
+//@   property C05
+//@   ensures [error-returns-minus-one] result1 != nil ==> result0 == -1
+//@   modifies fresh
